@@ -60,6 +60,8 @@ def _child(rec):
         exc = {"n_states": n_states, "method": rec["exc"], "tolerance": rec["tol"], "make_best_guess": rec["best_guess"]}
         if window is not None:
             exc["orbital_window"] = window
+        if rec.get("max_iter"):
+            exc["max_iter"] = rec["max_iter"]  # iteration cap of the uniform-batch CIS Davidson (knob)
         return {"method": rec["method"], "scf_eps": 1e-10, "scf_converger": [1], "excited_states": exc}
 
     sp = settings()
@@ -232,6 +234,10 @@ def gen(rng, tier):
     if len(set(batch)) == 1 and exc == "cis" and "mem" not in rec and rng.random() < 0.3:
         # restricted active space (documented `orbital_window`; needs uniform occupied/virtual counts)
         rec["window"] = [rng.choice([0.3, 0.5, 0.75, 1.0]), rng.choice([0.3, 0.5, 0.75, 1.0])]
+    if len(set(batch)) == 1 and exc == "cis" and rng.random() < 0.2:
+        # iteration cap as a knob (documented `max_iter`): a solve that hits it must say so, never hand back
+        # unconverged states
+        rec["max_iter"] = rng.choice([1, 2, 3, 4, 6, 9, 15])
     # symmetric molecules with exactly degenerate states: undistorted geometry, or a perfect first member
     u2 = rng.random()
     if u2 < 0.15:
@@ -283,12 +289,13 @@ def _execute(record, root):
         stats["solves"] += 1
         if e.get("exc"):
             stats["probes"]["solves_that_raised"] = stats["probes"].get("solves_that_raised", 0) + 1
-            honest_giveup = bool(record.get("subspace_limit")) and "Maximum iterations reached" in str(e["exc"])
+            honest_giveup = bool(record.get("subspace_limit") or record.get("max_iter")) and "Maximum iterations reached" in str(e["exc"])
             if honest_giveup:
                 # injected fault active (available memory restricted -> subspace of ~10 vectors with collapses): a
                 # restarted Davidson may stagnate from some starting vectors and says so loudly.  Under the fault an
                 # operation may fail honestly; it may never return a wrong answer (all other oracles stay on).
-                stats["probes"]["honest_nonconvergence_under_memory_fault"] = stats["probes"].get("honest_nonconvergence_under_memory_fault", 0) + 1
+                key = "honest_nonconvergence_under_memory_fault" if record.get("subspace_limit") else "honest_nonconvergence_at_iteration_cap"
+                stats["probes"][key] = stats["probes"].get(key, 0) + 1
             elif e["start"] != "fresh" and not any(o.get("exc") for o in out[:k] if o["start"] == "fresh"):
                 # the same request succeeds from a fresh start: the answer (here: success) depends on the carried state
                 failures.append(core.fail("fails-with-carried-amplitudes", f"{tag}: raised {e['exc']} although the fresh-start solve of this session succeeded"))
